@@ -355,6 +355,11 @@ type ifInfo struct {
 	in   *ssa.If
 	atom Atom
 	site *spliceSite // non-nil: a branch of a spliced helper, atom in the caller's frame
+	t    *Term       // the condition's term (in the frame the atom is printed in)
+	// table loop: the condition selects from a literal list by loop counter tblCtr
+	// (`for _, e := range []T{…} { if cond(e) … }`); insts[k] is the atom for element k
+	tblCtr string
+	insts  []Atom
 }
 
 func (p *Prog) ifs(fn *ssa.Function) []ifInfo {
@@ -365,7 +370,8 @@ func (p *Prog) ifs(fn *ssa.Function) []ifInfo {
 			continue
 		}
 		if iff, ok := b.Instrs[len(b.Instrs)-1].(*ssa.If); ok {
-			out = append(out, ifInfo{in: iff, atom: condAtom(x, iff.Cond, iff)})
+			t := x.Of(iff.Cond, iff)
+			out = append(out, ifInfo{in: iff, atom: atomOfTerm(t), t: t})
 		}
 	}
 	for _, sp := range p.splices(fn) {
@@ -379,20 +385,137 @@ func (p *Prog) ifs(fn *ssa.Function) []ifInfo {
 func passEdges(ifs []ifInfo, guard []Atom) (map[Edge]bool, []ifInfo) {
 	cut := map[Edge]bool{}
 	var matched []ifInfo
+	var tableHits []ifInfo
 	for _, ii := range ifs {
 		for _, g := range guard {
-			if !matchKey(g.Key, ii.atom.Key) {
+			if matchKey(g.Key, ii.atom.Key) {
+				slot := 0 // true successor: Key holds == atom.Pol
+				if ii.atom.Pol != g.Pol {
+					slot = 1
+				}
+				cut[Edge{ii.in.Block(), slot, ii.site}] = true
+				matched = append(matched, ii)
 				continue
 			}
-			slot := 0 // true successor: Key holds == atom.Pol
-			if ii.atom.Pol != g.Pol {
-				slot = 1
+			// the condition of a table loop, for the element that makes it this guard
+			for _, a := range ii.insts {
+				if matchKey(g.Key, a.Key) {
+					slot := 0
+					if a.Pol != g.Pol {
+						slot = 1
+					}
+					cut[Edge{ii.in.Block(), slot, ii.site}] = true
+					matched = append(matched, ii)
+					tableHits = append(tableHits, ii)
+					break
+				}
 			}
-			cut[Edge{ii.in.Block(), slot, ii.site}] = true
-			matched = append(matched, ii)
 		}
 	}
+	tableHitsOf[fmt.Sprintf("%p", cut)] = tableHits
 	return cut, matched
+}
+
+// tableHitsOf hands the table-loop matches of a passEdges call to addTableExits (keyed by
+// the identity of the returned edge set).
+var tableHitsOf = map[string][]ifInfo{}
+
+// addTableExits: a loop over a literal table runs its body once per element, in order. If
+//   (a) with the pass edges deleted the body can no longer get back to the loop header, and
+//   (b) from the pass edges onward no target is reachable except by going round through the
+//       header again (no `break` to the code after the loop),
+// then leaving the loop through the header means every element went through its pass
+// edge: the header's exit edge belongs to the guard as well.
+func addTableExits(cut map[Edge]bool, ifs []ifInfo, targets []ssa.Instruction) {
+	key := fmt.Sprintf("%p", cut)
+	hits := tableHitsOf[key]
+	delete(tableHitsOf, key)
+	// group the hits by the loop (header) they belong to
+	type loopHits struct {
+		hh   ifInfo
+		slot int
+		hits []ifInfo
+	}
+	var loops []*loopHits
+	for _, th := range hits {
+		for _, hh := range ifs {
+			if hh.site != nil || hh.t == nil {
+				continue
+			}
+			slot, ok := tableLoopExit(hh, th.tblCtr)
+			if !ok {
+				continue
+			}
+			hb := hh.in.Block()
+			tb := th.in.Block()
+			if th.site == nil && !(hb.Dominates(tb) && hb != tb) {
+				continue
+			}
+			var lh *loopHits
+			for _, l := range loops {
+				if l.hh.in == hh.in {
+					lh = l
+				}
+			}
+			if lh == nil {
+				lh = &loopHits{hh: hh, slot: slot}
+				loops = append(loops, lh)
+			}
+			lh.hits = append(lh.hits, th)
+		}
+	}
+	for _, lh := range loops {
+		hb := lh.hh.in.Block()
+		body := enter(hb, 1-lh.slot, nil, cut)
+		if reachFromNodes(body, cut)[hb] {
+			continue // (a) fails: some way round the loop avoids the guard
+		}
+		// (b): walk on from every pass edge of the loop's guard branches, not continuing past the header
+		stop := map[Edge]bool{}
+		for e := range cut {
+			stop[e] = true
+		}
+		var starts []Node
+		for _, th := range lh.hits {
+			tb := th.in.Block()
+			for sl := 0; sl < 2; sl++ {
+				e := Edge{tb, sl, th.site}
+				if cut[e] {
+					delete(stop, e)
+					starts = append(starts, enter(tb, sl, th.site, stop)...)
+					stop[e] = true
+				}
+			}
+		}
+		stop[Edge{hb, 0, nil}], stop[Edge{hb, 1, nil}] = true, true
+		reach := reachFromNodes(starts, stop)
+		leaks := false
+		for _, t := range targets {
+			if reach[t.Block()] {
+				leaks = true
+			}
+		}
+		if leaks {
+			continue
+		}
+		cut[Edge{hb, lh.slot, nil}] = true
+	}
+}
+
+// tableLoopExit: hh is the header test `ctr < N` of a counting loop (N a constant >= 1);
+// returns the successor slot on which the loop is left.
+func tableLoopExit(hh ifInfo, ctr string) (int, bool) {
+	t := hh.t
+	if t == nil || t.Op != "bin" || t.S != "<" || len(t.A) != 2 {
+		return 0, false
+	}
+	if t.A[0].Op != "ind" || t.A[0].S != ctr || !strings.HasSuffix(ctr, "0") {
+		return 0, false
+	}
+	if n, ok := isIntConst(t.A[1]); !ok || n < 1 {
+		return 0, false
+	}
+	return 1, true // the condition is false on the exit edge
 }
 
 // CutResult describes the outcome of a cut query.
@@ -409,6 +532,7 @@ type CutResult struct {
 // of guard are deleted?
 func cutQuery(fn *ssa.Function, ifs []ifInfo, guard []Atom, targets []ssa.Instruction) CutResult {
 	edges, matched := passEdges(ifs, guard)
+	addTableExits(edges, ifs, targets)
 	res := CutResult{Matched: len(matched)}
 	if len(matched) == 0 {
 		res.Holds = false
@@ -432,6 +556,7 @@ func cutQuery(fn *ssa.Function, ifs []ifInfo, guard []Atom, targets []ssa.Instru
 // cutFrom is cut with an explicit start block (for branch-local scopes).
 func cutFromQuery(fn *ssa.Function, ifs []ifInfo, start *ssa.BasicBlock, guard []Atom, targets []ssa.Instruction) CutResult {
 	edges, matched := passEdges(ifs, guard)
+	addTableExits(edges, ifs, targets)
 	res := CutResult{Matched: len(matched)}
 	if len(matched) == 0 {
 		if len(targets) > 0 {
